@@ -10,9 +10,10 @@
       owner, group \in {"none", "ok", "foreign"}   the uid / gid asked for: none, the one the files usually have, another one
       nosym        \in BOOLEAN                     symbolic links are refused
       perms        \in {"none", "lenient", "strict"} permission masks: none, masks every file satisfies, a file mask that
-                                                    files of attribute perm = "bad" do not satisfy (the directory mask is
-                                                    always satisfied)
-   attrs[f] = [own, grp, link, perm]   own/grp \in {"ok","foreign"}; link: the path is a symbolic link; perm \in {"ok","bad"}
+                                                    files of attribute perm = "bad" and a directory mask that
+                                                    directories of attribute dperm = "bad" do not satisfy
+   attrs[f] = [own, grp, link, perm, dperm]   own/grp \in {"ok","foreign"}; link: the path is a symbolic link; perm \in {"ok","bad"};
+                                       dperm \in {"ok","bad"}: permission bits of the DIRECTORY the file sits in (shared by its files)
    A main file of kind "devnull" is a symbolic link by construction.  The permission bits looked at are those of the
    directory entry itself (lstat): a symbolic link always satisfies a file mask.                       *)
 EXTENDS Layers
@@ -41,6 +42,7 @@ Violations(tree, attrs, fl, f) ==
   \cup (IF fl.owner # "none" /\ attrs[f].own # fl.owner THEN {"owner"} ELSE {})
   \cup (IF fl.group # "none" /\ attrs[f].grp # fl.group THEN {"group"} ELSE {})
   \cup (IF fl.perms = "strict" /\ attrs[f].perm = "bad" /\ ~IsLink(tree, attrs, f) THEN {"fileperm"} ELSE {})
+  \cup (IF fl.perms = "strict" /\ attrs[f].dperm = "bad" THEN {"dirperm"} ELSE {})
 FaultsOf(tree, attrs, fl) == [f \in AllFiles(tree) |-> Violations(tree, attrs, fl, f)]
-PlainAttrs(tree) == [f \in AllFiles(tree) |-> [own |-> "ok", grp |-> "ok", link |-> FALSE, perm |-> "ok"]]
+PlainAttrs(tree) == [f \in AllFiles(tree) |-> [own |-> "ok", grp |-> "ok", link |-> FALSE, perm |-> "ok", dperm |-> "ok"]]
 =============================================================================
